@@ -488,7 +488,7 @@ class MapfileTransformer(Transformer):
             [str(v.value) for v in t]
         )  # convert to string for boolean expressions e.g. (true)
 
-        if not self.quoter.in_parenthesis(exp):
+        if not is_parenthesised_group(exp):
             t[0].value = f"({exp})"
 
         return t[0]
@@ -763,6 +763,35 @@ class Canonize(Transformer_InPlace):
         tree.data = "composite"
         tree.children.insert(0, composite_type)
         return tree
+
+
+def is_parenthesised_group(exp: str) -> bool:
+    """
+    Check if the whole of an expression string is enclosed by one matching pair of
+    parentheses e.g. "(a + b)" but not "(a) + (b)". Parentheses in quoted strings are ignored.
+    """
+    exp = exp.strip()
+    if not (exp.startswith("(") and exp.endswith(")")):
+        return False
+
+    depth = 0
+    quote = None
+    last = len(exp) - 1
+
+    for idx, char in enumerate(exp):
+        if quote:
+            if char == quote and exp[idx - 1] != "\\":
+                quote = None
+        elif char in ("'", '"', "`"):
+            quote = char
+        elif char == "(":
+            depth += 1
+        elif char == ")":
+            depth -= 1
+            if depth == 0 and idx != last:
+                return False
+
+    return depth == 0
 
 
 def calculate_depth(iterable):
